@@ -113,6 +113,7 @@ struct Extract {
     clauses: Vec<Clause>,
     fnattrs: Vec<String>,
     tmpl_line: usize,
+    closure_keys: BTreeMap<usize, String>,
 }
 
 fn parse_bracket(s: &str) -> (BTreeMap<String, String>, Option<String>, String, &str) {
@@ -581,6 +582,7 @@ impl<'ast> Visit<'ast> for LoopFinder {
 struct ClosureFinder {
     // (start of `|`, end of header incl. return type, body start, body end, body is block)
     closures: Vec<(usize, usize, usize, usize, bool)>,
+    whole: Vec<(usize, usize)>,
 }
 impl<'ast> Visit<'ast> for ClosureFinder {
     fn visit_expr_closure(&mut self, c: &'ast syn::ExprClosure) {
@@ -591,6 +593,7 @@ impl<'ast> Visit<'ast> for ClosureFinder {
         }
         let (bs, be) = rng(c.body.span());
         self.closures.push((s, e, bs, be, matches!(&*c.body, syn::Expr::Block(_))));
+        self.whole.push(rng(c.span()));
         syn::visit::visit_expr_closure(self, c);
     }
 }
@@ -671,14 +674,34 @@ fn pass_x3(text: String, ex: &Extract, probes: bool, probe_ctr: &mut usize) -> R
     }
     // closure contracts (X3): `//@closure_sig[closure=K] |a: T| -> (r: U)` replaces the header of the K-th
     // closure (type ascriptions only), `//@ensures[closure=K;label|props] e` gives its postcondition
-    let mut cf = ClosureFinder { closures: vec![] };
+    let mut cf = ClosureFinder { closures: vec![], whole: vec![] };
     cf.visit_block(&f.block);
     let max_cl = ex.clauses.iter().filter_map(|c| c.closure_no).max().unwrap_or(0);
     if max_cl > cf.closures.len() {
         return fail(format!("contract names closure {} but the function has {} closures", max_cl, cf.closures.len()));
     }
+    // resolve contract number -> closure position (by ordinal, or by source text if a closure_key is given)
+    let mut contract_of_pos: BTreeMap<usize, usize> = BTreeMap::new();
+    for kno in ex.clauses.iter().filter_map(|c| c.closure_no) {
+        let pos = match ex.closure_keys.get(&kno) {
+            // the key is matched, whitespace-insensitively, against the closure text preceded by up to
+            // 120 bytes of context (so that `.update_proposals().all(|p| ..)` and `.filter(|p| ..)` differ)
+            Some(key) => {
+                let strip = |t: &str| t.chars().filter(|c| !c.is_whitespace()).collect::<String>();
+                let k = strip(key);
+                cf.whole.iter().position(|(a, b)| {
+                    let mut from = a.saturating_sub(120);
+                    while !text.is_char_boundary(from) { from += 1; }
+                    strip(&text[from..*b]).contains(k.as_str())
+                }).ok_or(Fail(format!("closure_key {} not found: {}", kno, key)))?
+            }
+            None => kno - 1,
+        };
+        contract_of_pos.insert(pos, kno);
+    }
     for (k, (hs, he, bs, be, is_block)) in cf.closures.iter().enumerate() {
-        let cs: Vec<&Clause> = ex.clauses.iter().filter(|c| c.closure_no == Some(k + 1)).collect();
+        let kno = match contract_of_pos.get(&k) { Some(n) => *n, None => continue };
+        let cs: Vec<&Clause> = ex.clauses.iter().filter(|c| c.closure_no == Some(kno)).collect();
         if cs.is_empty() {
             continue;
         }
@@ -991,7 +1014,7 @@ fn do_extract(repo: &str, ex: &Extract, probes: bool, probe_ctr: &mut usize) -> 
     let ncl = ex.clauses.len();
     let t = if sigonly {
         // labels of an assumed contract are not obligations of this unit
-        let ex2 = Extract { kv: ex.kv.clone(), clauses: ex.clauses.iter().filter(|c| c.loop_no.is_none() && c.closure_no.is_none()).map(|c| if c.kind == "requires" { Clause { kind: c.kind.clone(), label: c.label.clone(), props: format!("{}@callsite", c.props), loop_no: None, closure_no: None, text: c.text.clone() } } else { Clause { kind: c.kind.clone(), label: None, props: String::new(), loop_no: None, closure_no: None, text: c.text.clone() } }).collect(), fnattrs: vec![], tmpl_line: ex.tmpl_line };
+        let ex2 = Extract { kv: ex.kv.clone(), clauses: ex.clauses.iter().filter(|c| c.loop_no.is_none() && c.closure_no.is_none()).map(|c| if c.kind == "requires" { Clause { kind: c.kind.clone(), label: c.label.clone(), props: format!("{}@callsite", c.props), loop_no: None, closure_no: None, text: c.text.clone() } } else { Clause { kind: c.kind.clone(), label: None, props: String::new(), loop_no: None, closure_no: None, text: c.text.clone() } }).collect(), fnattrs: vec![], tmpl_line: ex.tmpl_line, closure_keys: BTreeMap::new() };
         pass_x3(t, &ex2, false, probe_ctr)?
     } else {
         pass_x3(t, ex, probes, probe_ctr)?
@@ -1088,7 +1111,7 @@ fn run() -> Result<(), Fail> {
                 if !stateful_default.is_empty() {
                     kv.insert("__stateful_default".to_string(), stateful_default.clone());
                 }
-                cur = Some(Extract { kv, clauses: vec![], fnattrs: vec![], tmpl_line: ln + 1 });
+                cur = Some(Extract { kv, clauses: vec![], fnattrs: vec![], tmpl_line: ln + 1, closure_keys: BTreeMap::new() });
                 continue;
             }
             if d.trim() == "end" {
@@ -1111,6 +1134,16 @@ fn run() -> Result<(), Fail> {
                 continue;
             }
             if let Some(ex) = cur.as_mut() {
+                if let Some(r) = d.strip_prefix("closure_key ") {
+                    // `//@closure_key K <text>`: contract K belongs to the closure whose source contains <text>
+                    let r = r.trim();
+                    if let Some((k, t)) = r.split_once(' ') {
+                        if let Ok(k) = k.parse::<usize>() {
+                            ex.closure_keys.insert(k, t.trim().to_string());
+                        }
+                    }
+                    continue;
+                }
                 if let Some(r) = d.strip_prefix("fnattr ") {
                     ex.fnattrs.push(r.trim().to_string());
                     continue;
